@@ -101,8 +101,7 @@ def check_text(ctx, rng):
     clean = []
     for si in range(nsch):
         schema = lvs.gen_schema(rng, with_signers=True, n_rules=rng.randint(2, 6))
-        pre = lvs.Ref(schema, lvs.USER_FNS)
-        if sum(len(pre.alternatives(rn)) for rn in pre.defs) > 100:
+        if lvs.alt_counts(schema)[0] > 100:
             continue
         text = lvs.schema_text(schema)
         w = {'schema': text}
